@@ -82,8 +82,14 @@ void h_bundle(void)
     size_t n = spec_bundle(exp, sizeof exp, IN.tt, BN_K, cel, sz);
     V_ASSERT(n == need, "harness self-check: spec size");
 
+#ifdef BN_CAP
+    size_t cap = BN_CAP;          /* concrete capacity (C02 also enumerates capacities: code that feeds the capacity into
+                                     the element scan would make every loop exit symbolic under a symbolic capacity) */
+    V_ASSERT(cap <= CAPMAX, "harness self-check: capacity within the staging array");
+#else
     size_t cap = IN.cap;
     V_ASSUME(cap <= CAPMAX);
+#endif
     char *buf = V_MALLOC(cap);
     for(size_t q = 0; q < CAPMAX; q++) if(q < cap) buf[q] = (char)IN.fill[q];
 #if BN_K == 0
